@@ -25,7 +25,7 @@ META = {
     "level": "proof",
     "design_ref": "§5 C18",
     "technique": "Coq proof (timed future state machine + inductive invariant of the per-thread counter gate and the timer wheel) + "
-                 "extracted-model vs real rustls-0.23/OpenSSL acceptor services under Tokio's paused clock, handshake oracle recorded per poll",
+                 "extracted-model vs the real acceptor services of actix-tls (rustls 0.23/0.22/0.21/0.20, OpenSSL, native-tls) under Tokio's paused clock, handshake oracle recorded per poll",
     "level_text": "PARTIAL. THEOREM (every handshake behaviour = arbitrary script of Pending/Done/Failed answers, every interleaving of "
                   "poll_ready/call/poll/drop/advance incl. calls that skipped poll_ready, every capacity and timeout; Gallina model of "
                   "AcceptorService::poll_ready/call, AcceptFut::poll and the Counter gate): C18_outcome(+_once,_stable) — each poll asks the "
@@ -66,8 +66,14 @@ META = {
 # ---------------------------------------------------------------------------------------------
 # c18: poll-level scripts
 # ---------------------------------------------------------------------------------------------
+def backends(seed):
+    """which acceptor back-ends of actix-tls play the two services of a case: the "r" service is the rustls 0.23 / 0.22 / 0.21 / 0.20
+    acceptor, the "o" service the OpenSSL or the native-tls acceptor (all share the per-thread handshake counter; the model is the same)"""
+    return ";rv=%s;ov=%s" % (["23", "23", "22", "21", "20"][seed % 5], ["o", "o", "n"][(seed // 5) % 3])
+
+
 def case(lim, tr, to, conns, ops, seed):
-    return "lim=%d;tr=%d;to=%d;conns=%s;ops=%s;seed=%d" % (lim, tr, to, ",".join(conns), ".".join(ops), seed)
+    return "lim=%d;tr=%d;to=%d;conns=%s;ops=%s;seed=%d" % (lim, tr, to, ",".join(conns), ".".join(ops), seed) + backends(seed)
 
 
 PAIRS = ["rr", "ro", "or", "oo"]
@@ -302,7 +308,8 @@ def e2e_cases(ctx):
             delay = rng.choice([0, 3, 11, 53, 211, 997, 2503, 6007]) + rng.randrange(0, 3)
             acc, kind = rng.choice("ro"), rng.choice("rroRO")
             conns.append("%s%s:%d:%d:%s" % (acc, kind, arr, delay, act))
-        c = "lim=%d;tr=%d;to=%d;conns=%s;seed=%d" % (lim, tr, to, ",".join(conns), rng.randrange(1, 1 << 30))
+        sd = rng.randrange(1, 1 << 30)
+        c = "lim=%d;tr=%d;to=%d;conns=%s;seed=%d" % (lim, tr, to, ",".join(conns), sd) + backends(sd)
         try:
             exp = e2e_expect(c)
         except Tie:
